@@ -37,7 +37,12 @@ def _setup_repo(repo: str | None):
 def load_contracts():
     sys.path.insert(0, VERIF)
     import contracts
+    wip_ok = os.environ.get('PYVC_WIP') == '1'
+    accepted = set(getattr(contracts, 'ACCEPTED_WIP', ()))
     for m in sorted(pkgutil.iter_modules(contracts.__path__), key=lambda m: m.name):
+        # work-in-progress contract files (w2_*.py ...) take part in ./check only once listed in contracts.ACCEPTED_WIP
+        if m.name.startswith(tuple(getattr(contracts, 'WIP_PREFIXES', ()))) and not wip_ok and m.name not in accepted:
+            continue
         try:
             importlib.import_module(f'contracts.{m.name}')
         except Exception as e:      # a broken contracts file must not take the other properties down with it
